@@ -392,7 +392,7 @@ class SFMap(ModelObj):
         if name == "update" and len(args) <= 1 and not kwargs:
             self._mut()
             if args:
-                self.v = update_value(st, m, args[0])
+                self.v = update_value(st, m, st.force(args[0]))
             return None
         if name == "setdefault" and 1 <= len(args) <= 2:
             self._mut()
